@@ -415,6 +415,36 @@ def _prod_pattern_case(seed, cfg, all_outputs=False):
     return {'family': 'fxp', 'cfg': cfg.to_json(), 'prog': prog, 'seed': seed}
 
 
+DIV_ENUM_BASE = PROD_ENUM_BASE + len(PROD_PATTERNS)
+
+
+def _div_enum():
+    """Division x / y and reciprocal 1 / y for divisors at and next to powers of two (where the initial approximation
+    of the Newton iteration is worst) and at generic points, |y| >= 1, for several fractional lengths."""
+    from fractions import Fraction as Fr
+    out = []
+    for l, f in ((38, 19), (36, 18), (32, 16), (24, 12), (16, 8), (12, 6)):
+        u = Fr(1, 1 << f)
+        big = Fr(min(100, (1 << (l - f - 3)) - 1))
+        for y in (1 - u, 2 - u, 1 + u, 4 - u, Fr(3, 2), Fr(181, 128), 3, -1 + u, Fr(5, 4), Fr(7, 8)):
+            for x in (big, Fr(7, 2), -Fr(29, 4)):
+                if abs(y) >= Fr(3, 4) and abs(x / y) < (1 << (l - f - 2)):
+                    out.append(((l, f), x, y))
+    return out
+
+
+def _div_enum_case(seed, cfg):
+    enum = _div_enum()
+    i = seed % 1000003 - DIV_ENUM_BASE
+    if not 0 <= i < len(enum):
+        return None
+    (l, f), x, y = enum[i]
+    prog = fxpfam.gen_fixed(cfg, {'l': l, 'f': f, 'div_min': [3, 4]}, [x, y], [['getitem', ['a'], ['x'], {'i': 0}], ['getitem', ['b'], ['x'], {'i': 1}],
+                                                            ['div', ['q'], ['a', 'b'], {}], ['reciprocal', ['r'], ['b'], {}]],
+                            ['q', 'r'], sender=i % max(1, cfg.m))
+    return {'family': 'fxp', 'cfg': cfg.to_json(), 'prog': prog, 'seed': seed}
+
+
 @_register
 class C02(Spec):
     check_id = 'C02'
@@ -427,7 +457,7 @@ class C02(Spec):
     def make_case(self, seed, tier):
         rng = random.Random(f'C02/{seed}')
         cfg = sample_cfg(rng, tier)
-        enum = _prod_pattern_case(seed, cfg)
+        enum = _prod_pattern_case(seed, cfg) or _div_enum_case(seed, cfg)
         if enum is not None:
             return enum
         prog = fxpfam.gen(rng, cfg, tier, effects=rng.random() < 0.15,
